@@ -37,6 +37,9 @@ struct C<'a> {
     router_policy: u8,
     udp: SocketHandle,
     idle_polls: u32,
+    /// C16: the default route learnt from the router's advertisements is valid until this instant (the most recent
+    /// advertisement decides: a shorter or zero router lifetime shortens or removes it)
+    route_until: Option<i64>,
 }
 
 impl<'a> C<'a> {
@@ -80,7 +83,7 @@ pub fn run(tape: &mut Tape, props: Props, thorough: bool, trace_on: bool) -> Out
     let uh = node.sockets.add(u);
     let router_policy = tape.draw(4) as u8;
     let desc = format!("slaac-node tcp-connecting={} router-policy={} (0 timely, 1 late, 2 never, 3 timely+unsolicited)", with_tcp, router_policy);
-    let mut c = C { tape, props, node, view, now: 0, stats: Stats::default(), hash: LogHash::new(), trace: vec![], trace_on, events: 0, inflight: vec![], seq: 0, router_policy, udp: uh, idle_polls: 0 };
+    let mut c = C { tape, props, node, view, now: 0, stats: Stats::default(), hash: LogHash::new(), trace: vec![], trace_on, events: 0, inflight: vec![], seq: 0, router_policy, udp: uh, idle_polls: 0, route_until: None };
     let r = body(&mut c, thorough);
     let nontrivial = c.stats.get("slaac.router-solicitations") >= 1 && c.stats.get("c13.early-probes") >= 2;
     c.stats.add("sim.seconds", (c.now / 1_000_000) as u64);
@@ -145,6 +148,10 @@ fn poll(c: &mut C, probe: bool) -> Result<(usize, usize), Violation> {
                 break;
             }
             let (_, _, f) = c.inflight.remove(0);
+            if f.len() >= 62 && f[12] == 0x86 && f[13] == 0xdd && f[20] == P_ICMP6 && f[54] == 134 {
+                let life = ((f[60] as i64) << 8) | f[61] as i64;
+                c.route_until = if life == 0 { None } else { Some(c.now + life * 1_000_000) };
+            }
             c.hash.bytes(&f);
             c.node.dev.rx.push_back(f);
             rx += 1;
@@ -163,6 +170,22 @@ fn poll(c: &mut C, probe: bool) -> Result<(usize, usize), Violation> {
         };
         let sm = p.summary();
         c.log(|| format!("V tx{} {}", if probe { " (probe)" } else { "" }, sm));
+        // C16: a packet for an off-link destination leaves only through the router of an unexpired default route
+        if c.props.has("C16") {
+            if let (Some(e), Some(ip)) = (&p.eth, &p.ip) {
+                if let IpAddr::V6(d) = ip.dst {
+                    if d[0] == 0x20 && d[1] == 0x01 && d[2] == 0x48 {
+                        let valid = c.route_until.map(|u| c.now <= u + 1_000).unwrap_or(false);
+                        if !valid {
+                            return Err(viol("C16", "next-hop", "C16.route/sent-through-a-router-whose-advertised-lifetime-is-over", format!("packet to the off-link destination {} transmitted at t={} us although the router's most recent advertisement makes the default route valid until {:?}: {}", ip.dst, c.now, c.route_until, p.summary())));
+                        }
+                        if e.dst != R_MAC {
+                            return Err(viol("C16", "next-hop", "C16.l2dst/wrong-hardware-address", format!("packet to the off-link destination {} sent to {:02x?}, the router is {:02x?}", ip.dst, e.dst, R_MAC)));
+                        }
+                    }
+                }
+            }
+        }
         // MLD reports are not scheduled through poll_at (outside the claim)
         let mld = p.icmp6().map(|(_, i)| i.typ == 143).unwrap_or(false);
         if !mld {
